@@ -55,7 +55,7 @@ CHECKS = {
         '(|gamma|<=pi/6, |delta|<=pi/2, 0<=kappa<2pi, 0<=h<=1, |sigma|<=pi/2); a double-couple chain proposes gamma=delta=0; the balancing '
         'draw lies on the lune; a model jump keeps strike, dip cosine and slip, gives an exact double-couple going down and an in-range '
         'source type going up, and happens iff u <= jump probability. Width adaptation: for EVERY sequence of window rates in [0,1] every '
-        'width stays positive and below its maximum, no key is lost and the balancing widths are carried unchanged. Tie: '
+        'width stays positive and below its maximum, no key is lost and the balancing widths are carried unchanged; modifyWidths returns positive widths for EVERY ratio (0 and negative included: the case floating-point underflow produces, repaired in /repo by 1c949dd). Tie: '
         '_new_sample_single (single-try and trans-dimensional) under replayed draw streams, conversion to a unit tensor, and '
         '_modify_acceptance_rate over exhaustive rate-class sequences vs the executable model. The proposal LAW is proved (Props/C06Law): for n '
         'independent draws of any law nu, P(redraw loop returns a value in A) = (sum_{k<n} nu(out)^k) nu(in-range and candidate in A), the '
